@@ -27,7 +27,7 @@ Next ==
                                              listslot |-> ev.slot \in {"LISTREF", "LISTPAT", "LSUBREF"}])
                 ELSE IF ev.act = "Restart" THEN (IF pre \subseteq post THEN {} ELSE {"C17.RestartKeepsTree"})
                 ELSE NsStepBad(pre, ev, post))
-               \cup (IF ev.act \in {"List", "Lsub"} THEN ListBad(pre, ev.ref, ev.pat, ev.lsub, listed, ev.dup) ELSE {})
+               \cup (IF ev.act \in {"List", "Lsub"} THEN ListBad(pre, ev.ref, SeqSet(ev.pats), ev.lsub, listed, ev.dup) ELSE {})
                \cup DiskDbBad(DiskOf(ev.tree), post)
        IN /\ \A c \in bad : PrintT(<<"VIOL", tid, l, ev.act, c>>)
           /\ (l = Len(R)) => PrintT(<<"DONE", tid, l>>)
